@@ -1358,6 +1358,30 @@ def r10_flag_writers_and_pairing(facts):
             "no statement before the derivative call saves the operands' flags while stopping tracking")
     if saved is None:
         return c
+    # ... on every path that produces the saved flags: a branch of the initialiser that reads the flags without stopping leaves
+    # those operands tracked while the derivative runs (the adjoints it computes then record a graph)
+    sb = m.binds.get(saved)
+    if sb is not None and sb[0] == "let" and isinstance(sb[1], dict):
+        def branches(e):
+            e0 = strip(e)
+            if isinstance(e0, dict) and e0.get("k") == "Block" and e0.get("e") is not None and not any(calls_in(st.get("init") or st.get("e") or {}, STOP) for st in e0["stmts"]):
+                return branches(e0["e"])
+            if isinstance(e0, dict) and e0.get("k") == "If" and e0.get("else") is not None:
+                return branches(e0["then"]) + branches(e0["else"])
+            if isinstance(e0, dict) and e0.get("k") == "Match":
+                out_ = []
+                for a_ in e0["arms"]:
+                    if not F._diverging(a_["body"]):
+                        out_ += branches(a_["body"])
+                return out_
+            return [e0]
+        brs = branches(sb[1])
+        if len(brs) > 1:
+            missing = [x_ for x_ in brs if isinstance(x_, dict) and not calls_in(x_, STOP)]
+            c.check(not missing, "pairing:stop-on-every-path", loc(bw, missing[0]) if missing else loc(bw, inv),
+                    "every branch that produces the saved flags stops tracking of the operands",
+                    "one branch of the saved-flags initialiser (`%s`) does not stop tracking: on that path the operands stay tracked while the derivative closure runs, "
+                    "so the adjoints it computes from them are tracked arrays with a recorded graph" % (show(missing[0])[:60] if missing else ""))
     tup = strip(inv["args"][1]) if len(inv["args"]) > 1 else None
     second = tup["fields"][1] if tup and tup.get("k") == "Tuple" and len(tup["fields"]) == 3 else None
     c.check(second is not None and var_of(second) == saved, "pairing:flags-argument", loc(bw, inv),
